@@ -1,6 +1,6 @@
 package main
 
-// C13 — native conversions are faithful, recursive and never aliased with the container.
+// C13 — native conversions are faithful, recursive and never aliased with the container (SX path normal form).
 
 import (
 	"go/ast"
@@ -11,12 +11,13 @@ import (
 func init() {
 	register(&Property{
 		ID: "C13",
-		Explanation: "Shape rules on the recursive converter `native` (an Object arm and a List arm that every container type satisfies; each builds a fresh map/slice and stores native(x) of every visited value under the same key / in visiting order " +
-			"through the total iterators decided by C14; the default arm returns the operand), on NativeDict/NativeSlice (= native(receiver)) and on Dict/Slice (fresh, one getVal() per entry under the same key / in order). Non-aliasing with native Go values follows by typing " +
-			"(spines hold the unexported field interface; struct shapes pinned; From-constructors copy element-wise, C12.R2) and from FRESH origins (E3). Deep equality of contents is a value statement and is not decided.",
+		Explanation: "Decided on the symbolic path normal form (SX). The recursive converter `native`: on the path where the operand is an Object (resp. List) — both container interfaces must have such a path — exactly one total iteration of the operand (ForEach / ForEachValue, whose totality is decided by C14) is performed with a function literal " +
+			"that stores native(x) of the visited value under the same key into (resp. appends it to) a result created by make in that path, and that result is returned; on every other path the operand itself is returned. NativeDict/NativeSlice return native(receiver); " +
+			"Dict is a fresh map holding getVal() of every field under its key (Slice: decided by C14). Non-aliasing with native Go values follows by typing (spines hold the unexported field interface; struct shapes pinned; From-constructors copy element-wise, C12.R2) and from FRESH origins (E3). " +
+			"Deep equality of contents is a value statement and is not decided.",
 		Rules: []Rule{
-			{ID: "C13.R1", Doc: "native: Object and List arms build fresh results holding native(x) of every visited value under the same key / in order; default returns the operand", Run: c13Native},
-			{ID: "C13.R2", Doc: "NativeDict/NativeSlice return native(receiver); Dict/Slice are fresh one-level snapshots of getVal() per entry", Run: c13Snapshots},
+			{ID: "C13.R1", Doc: "native: Object and List paths build fresh results holding native(x) of every visited value under the same key / in order; every other path returns the operand", Run: c13Native},
+			{ID: "C13.R2", Doc: "NativeDict/NativeSlice return native(receiver); Dict is a fresh one-level snapshot of getVal() per field", Run: c13Snapshots},
 			{ID: "C13.R3", Doc: "no aliasing by typing and origin: struct shapes, FRESH Go-typed results, element-wise From-constructors", Run: func(c *Ctx) {
 				structShapeRule(c, "C13.R3")
 				c13Fresh(c)
@@ -25,120 +26,129 @@ func init() {
 	})
 }
 
+func litParams(c *Ctx, fl *ast.FuncLit) []types.Object {
+	var ps []types.Object
+	for _, f := range fl.Type.Params.List {
+		for _, nm := range f.Names {
+			ps = append(ps, c.Info.Defs[nm])
+		}
+	}
+	return ps
+}
+
 func c13Native(c *Ctx) {
 	fd := c.NeedDecl("C13.R1", "native")
 	if fd == nil {
 		return
 	}
 	fobj := c.FuncObj(fd)
-	ts := findTypeSwitch(fd.Body)
-	if ts == nil {
-		c.Ob("C13.R1", "native", fd.Pos()).Undecided("no type switch")
-		return
-	}
-	bound := typeSwitchVar(c, ts)
 	par := soleParam(c, fd)
-	if op := typeSwitchOperand(ts); op == nil || c.obj(op) != par {
-		c.Ob("C13.R1", "native/operand", ts.Pos()).Fail("type switch is not on the argument")
+	paths, why := c.runPaths(fd)
+	if why != "" || par == nil {
+		c.Ob("C13.R1", "native", fd.Pos()).Undecided("body outside the path vocabulary: %s", why)
+		return
 	}
 	covered := map[*Cont]bool{}
 	n := 0
-	for _, cl := range ts.Body.List {
-		cc := cl.(*ast.CaseClause)
-		if cc.List == nil {
-			n++
-			r := (*ast.ReturnStmt)(nil)
-			if len(cc.Body) == 1 {
-				r, _ = cc.Body[0].(*ast.ReturnStmt)
+	isNative := func(t Term, arg types.Object) bool {
+		call, ok := t.(TCall)
+		return ok && call.Fun == fobj && len(call.Args) == 1 && isParamTerm(call.Args[0], arg)
+	}
+	for i, p := range paths {
+		// the container interface this path established for the operand
+		var ct *Cont
+		var operand Term
+		bad := ""
+		for _, cd := range p.Conds() {
+			op, T, isTest := kindTestOf(cd.T)
+			if !isTest || !isParamTerm(op, par) {
+				bad = "decision that is not a type test of the operand: " + c.termStr(cd.T)
+				break
 			}
-			c.Ob("C13.R1", "native/default", cc.Pos()).Check(r != nil && len(r.Results) == 1 && (isSwitchVar(c, r.Results[0], bound, cc) || c.obj(r.Results[0]) == par),
-				"scalars are returned unchanged", "default arm does not return its operand")
+			if cd.Truth {
+				ct = c.Inv().ContByIface(T)
+				if ct == nil {
+					bad = "arm for a non-container type " + shortType(T)
+				}
+				operand = TAssert{op, T}
+			}
+		}
+		n++
+		if bad != "" {
+			c.Ob("C13.R1", "native/path#"+itoa(i+1), posOfNode(p.Node)).Fail("%s", bad)
 			continue
 		}
-		if len(cc.List) != 1 {
-			c.Ob("C13.R1", "native/arm", cc.Pos()).Undecided("multi-type arm")
-			continue
-		}
-		T := c.typeOf(cc.List[0])
-		ct := c.Inv().ContByIface(T)
 		if ct == nil {
-			c.Ob("C13.R1", "native/case "+shortType(T), cc.Pos()).Fail("arm for a non-container type")
+			ob := c.Ob("C13.R1", "native/default", posOfNode(p.Node))
+			ob.Check(p.End == "return" && len(p.Vals) == 1 && (isParamTerm(p.Vals[0], par) || sameTerm(p.Vals[0], TVar{par})) && len(p.Effects()) == 0, "scalars are returned unchanged", "the default path does not return its operand unchanged")
 			continue
 		}
 		covered[ct] = true
-		n++
-		ob := c.Ob("C13.R1", "native/case "+shortType(T), cc.Pos())
-		if len(cc.Body) != 3 {
-			ob.Fail("arm is not: fresh result; total iteration storing native(x); return result")
+		ob := c.Ob("C13.R1", "native/case "+shortType(ct.Iface), posOfNode(p.Node))
+		effs := p.Effects()
+		if len(effs) != 1 || effs[0].Kind != "call" || effs[0].Call == nil || effs[0].Call.Fun == nil || p.End != "return" || len(p.Vals) != 1 {
+			ob.Fail("the arm is not: fresh result; one total iteration of the operand storing native(x); return result (a nested container would survive un-converted or be aliased)")
 			continue
 		}
-		as, ok := cc.Body[0].(*ast.AssignStmt)
-		es, ok2 := cc.Body[1].(*ast.ExprStmt)
-		r, ok3 := cc.Body[2].(*ast.ReturnStmt)
-		if !ok || !ok2 || !ok3 || len(as.Lhs) != 1 || len(as.Rhs) != 1 || len(r.Results) != 1 {
-			ob.Fail("unexpected statement kinds in the arm")
+		it := effs[0].Call
+		matchesOperand := it.Recv != nil && (sameTerm(it.Recv, operand) || sameTerm(it.Recv, TProj{operand, 0}))
+		if !matchesOperand || len(it.Args) != 1 {
+			ob.Fail("the iteration is not a method of the operand")
 			continue
 		}
-		result := c.obj(as.Lhs[0])
-		mk, ok := unparen(as.Rhs[0]).(*ast.CallExpr)
-		if !ok || !c.isBuiltin(mk, "make") {
-			ob.Fail("the arm's result is not created by make (it could alias the container)")
+		lit, ok := it.Args[0].(TLit)
+		fl, isFl := lit.Node.(*ast.FuncLit)
+		if !ok || !isFl {
+			ob.Fail("the iteration is not given a function literal")
 			continue
 		}
-		resT := c.typeOf(mk.Args[0])
-		it, ok := es.X.(*ast.CallExpr)
-		if !ok || len(it.Args) != 1 {
-			ob.Fail("second statement is not an iteration call")
+		ps := litParams(c, fl)
+		bp := c.NewSX().RunStmts(fl.Body.List, effs[0].Env)
+		if len(bp) != 1 || bp[0].Why != "" || len(bp[0].Conds()) != 0 {
+			ob.Fail("the visitor is not a single unconditional statement")
 			continue
 		}
-		isel, ok := unparen(it.Fun).(*ast.SelectorExpr)
-		lit, isLit := unparen(it.Args[0]).(*ast.FuncLit)
-		ical := c.callee(it)
-		if !ok || !isLit || ical == nil || !isSwitchVar(c, isel.X, bound, cc) {
-			ob.Fail("iteration is not a method of the operand with a function literal")
-			continue
+		// result variable: the local returned after the iteration (havoced by the callback, so a TLoop of that variable)
+		var resObj types.Object
+		if lv, ok := p.Vals[0].(TLoop); ok {
+			resObj = lv.Obj
 		}
-		var ps []types.Object
-		for _, f := range lit.Type.Params.List {
-			for _, nm := range f.Names {
-				ps = append(ps, c.Info.Defs[nm])
-			}
+		resInit := Term(nil)
+		if resObj != nil {
+			// value before the iteration: the make(...) bound in the visitor's captured environment
+			resInit = bp[0].Env[resObj]
 		}
-		isNative := func(e ast.Expr, arg types.Object) bool {
-			call, ok := unparen(e).(*ast.CallExpr)
-			return ok && len(call.Args) == 1 && c.callee(call) == fobj && c.obj(call.Args[0]) == arg
-		}
-		good := len(lit.Body.List) == 1 && c.obj(r.Results[0]) == result && result != nil
-		if _, isMap := resT.Underlying().(*types.Map); isMap && !ct.IsList {
+		good := false
+		if !ct.IsList {
 			// v.ForEach(func(key, val) { result[key] = native(val) })
-			good = good && ical.Name() == "ForEach" && len(ps) == 2
-			if good {
-				st, ok := lit.Body.List[0].(*ast.AssignStmt)
-				good = ok && st.Tok == token.ASSIGN && len(st.Lhs) == 1 && len(st.Rhs) == 1
-				if good {
-					ix, ok := unparen(st.Lhs[0]).(*ast.IndexExpr)
-					good = ok && c.obj(ix.X) == result && c.obj(ix.Index) == ps[0] && isNative(st.Rhs[0], ps[1])
-				}
-			}
-		} else if _, isSl := resT.Underlying().(*types.Slice); isSl && ct.IsList {
-			// v.ForEachValue(func(h) { result = append(result, native(h)) })  or ForEach(func(i, h))
-			good = good && (ical.Name() == "ForEachValue" && len(ps) == 1 || ical.Name() == "ForEach" && len(ps) == 2)
-			if good {
-				st, ok := lit.Body.List[0].(*ast.AssignStmt)
-				good = ok && st.Tok == token.ASSIGN && len(st.Lhs) == 1 && len(st.Rhs) == 1 && c.obj(st.Lhs[0]) == result
-				if good {
-					ap, ok := unparen(st.Rhs[0]).(*ast.CallExpr)
-					good = ok && c.isBuiltin(ap, "append") && len(ap.Args) == 2 && !ap.Ellipsis.IsValid() && c.obj(ap.Args[0]) == result && isNative(ap.Args[1], ps[len(ps)-1])
+			if it.Fun.Name() == "ForEach" && len(ps) == 2 && len(bp[0].Effects()) == 1 {
+				s := bp[0].Effects()[0]
+				if ix, ok := s.LHS.(TIndex); ok && s.Kind == "store" && isParamTerm(ix.I, ps[0]) && isNative(s.RHS, ps[1]) {
+					if mk, ok := ix.X.(TBuiltin); ok && mk.Name == "make" {
+						if _, isMap := mk.Type.Underlying().(*types.Map); isMap {
+							// the returned value is that map (maps are references: not havoced) or the same make term
+							good = sameTerm(p.Vals[0], ix.X)
+						}
+					}
 				}
 			}
 		} else {
-			good = false
+			// v.ForEachValue(func(h) { result = append(result, native(h)) })
+			if (it.Fun.Name() == "ForEachValue" && len(ps) == 1 || it.Fun.Name() == "ForEach" && len(ps) == 2) && len(bp[0].Effects()) == 0 && resObj != nil {
+				if ap, ok := resInit.(TBuiltin); ok && ap.Name == "append" && len(ap.Args) == 2 && isNative(ap.Args[1], ps[len(ps)-1]) {
+					if mk, ok := ap.Args[0].(TBuiltin); ok && mk.Name == "make" {
+						if _, isSl := mk.Type.Underlying().(*types.Slice); isSl {
+							good = true
+						}
+					}
+				}
+			}
 		}
-		ob.Check(good, "fresh "+shortType(resT)+"; every visited value x is stored as native(x) under the same key / appended in visiting order (recursion through native itself, so no container survives at any depth)",
+		ob.Check(good, "fresh result; every visited value x is stored as native(x) under the same key / appended in visiting order (recursion through native itself, so no container survives at any depth)",
 			"arm does not store native(x) of every visited value of the operand into a fresh result (a nested container would survive un-converted or be aliased)")
 	}
 	for _, ct := range c.Inv().Conts {
-		c.Ob("C13.R1", "native/covers "+ct.Named.Obj().Name(), ts.Pos()).Check(covered[ct], "every "+ct.Named.Obj().Name()+" satisfies the "+shortType(ct.Iface)+" arm", "no arm for "+shortType(ct.Iface)+": such containers would be returned un-converted")
+		c.Ob("C13.R1", "native/covers "+ct.Named.Obj().Name(), fd.Pos()).Check(covered[ct], "every "+ct.Named.Obj().Name()+" satisfies the "+shortType(ct.Iface)+" arm", "no arm for "+shortType(ct.Iface)+": such containers would be returned un-converted")
 	}
 	c.R.Floor("C13.R1", n, 3)
 }
@@ -146,80 +156,64 @@ func c13Native(c *Ctx) {
 func c13Snapshots(c *Ctx) {
 	n := 0
 	nat := c.Decl("native")
-	for _, spec := range []struct{ name string }{{"(*object).NativeDict"}, {"(*list).NativeSlice"}} {
-		fd := c.NeedDecl("C13.R2", spec.name)
+	for _, name := range []string{"(*object).NativeDict", "(*list).NativeSlice"} {
+		fd := c.NeedDecl("C13.R2", name)
 		if fd == nil || nat == nil {
 			continue
 		}
 		n++
-		ob := c.Ob("C13.R2", spec.name, fd.Pos())
-		r := singleReturn(fd.Body)
-		good := r != nil && len(r.Results) == 1
+		ob := c.Ob("C13.R2", name, fd.Pos())
+		paths, why := c.runPaths(fd)
+		v := c.view(fd)
+		good := why == "" && len(paths) == 1 && paths[0].End == "return" && len(paths[0].Vals) == 1 && len(paths[0].Effects()) == 0
 		if good {
-			e := unparen(r.Results[0])
-			if ta, ok := e.(*ast.TypeAssertExpr); ok {
-				e = unparen(ta.X)
+			t := paths[0].Vals[0]
+			if a, ok := t.(TAssert); ok {
+				t = a.X
 			}
-			call, ok := e.(*ast.CallExpr)
-			good = ok && len(call.Args) == 1 && c.callee(call) == c.FuncObj(nat) && c.isSelf(fd, call.Args[0])
+			call, ok := t.(TCall)
+			good = ok && call.Fun == c.FuncObj(nat) && len(call.Args) == 1 && v.isSelf(call.Args[0])
 		}
 		ob.Check(good, "returns native(receiver)", "does not return native(receiver)")
 	}
-	// Dict
 	if fd := c.NeedDecl("C13.R2", "(*object).Dict"); fd != nil {
 		n++
 		ob := c.Ob("C13.R2", "(*object).Dict", fd.Pos())
-		sl := spineLoops(c, fd)
-		good := len(sl) == 1 && len(allLoops(fd)) == 1 && len(fd.Body.List) == 3
-		var result types.Object
-		if good {
-			as, ok := fd.Body.List[0].(*ast.AssignStmt)
-			good = ok && len(as.Lhs) == 1 && len(as.Rhs) == 1
-			if good {
-				mk, ok := unparen(as.Rhs[0]).(*ast.CallExpr)
-				good = ok && c.isBuiltin(mk, "make")
-				result = c.obj(as.Lhs[0])
-			}
-		}
-		if good {
-			l := sl[0]
-			good = loopHasEarlyExit(l.Stmt) == ""
-			nf := c.loopNormalForm(l.Stmt.Body)
-			good = good && len(nf.Undecided) == 0 && len(nf.Tests) == 0 && len(nf.Actions) == 1 && len(nf.Actions[0].Guard) == 0
-			if good {
-				st, ok := nf.Actions[0].Stmt.(*ast.AssignStmt)
-				good = ok && st.Tok == token.ASSIGN && len(st.Lhs) == 1 && len(st.Rhs) == 1
-				if good {
-					ix, ok := unparen(st.Lhs[0]).(*ast.IndexExpr)
-					good = ok && c.obj(ix.X) == result && l.Key != nil && c.obj(ix.Index) == l.Key && c.elemForm(st.Rhs[0], l.Value) == "val"
+		paths, why := c.runPaths(fd)
+		v := c.view(fd)
+		msg := why
+		if msg == "" {
+			p, loop, w := singleLoopPath(paths)
+			msg = w
+			if msg == "" {
+				mk, isMk := (TBuiltin{}), false
+				if p.End == "return" && len(p.Vals) == 1 {
+					mk, isMk = p.Vals[0].(TBuiltin)
 				}
-			}
-			r, ok := fd.Body.List[2].(*ast.ReturnStmt)
-			good = good && ok && len(r.Results) == 1 && c.obj(r.Results[0]) == result
-		}
-		ob.Check(good, "fresh map; dict[key] = field.getVal() for every field under the same key (exactly what Get returns)", "Dict is not a fresh map holding getVal() of every field under its key")
-	}
-	// Slice is decided by C14 (Slice family, untyped: append(getVal())); re-stated here for the evidence
-	if fd := c.NeedDecl("C13.R2", "(*list).Slice"); fd != nil {
-		n++
-		sl := spineLoops(c, fd)
-		ob := c.Ob("C13.R2", "(*list).Slice", fd.Pos())
-		good := len(sl) == 1
-		if good {
-			nf := c.loopNormalForm(sl[0].Stmt.Body)
-			good = len(nf.Undecided) == 0 && len(nf.Actions) == 1 && len(nf.Actions[0].Guard) == 0 && loopHasEarlyExit(sl[0].Stmt) == ""
-			if good {
-				st, ok := nf.Actions[0].Stmt.(*ast.AssignStmt)
-				good = ok && len(st.Rhs) == 1
-				if good {
-					ap, ok := unparen(st.Rhs[0]).(*ast.CallExpr)
-					good = ok && c.isBuiltin(ap, "append") && len(ap.Args) == 2 && c.elemForm(ap.Args[1], sl[0].Value) == "val"
+				switch {
+				case !isMk || mk.Name != "make":
+					msg = "the result is not a map created by make in this call"
+				case loop.Range == nil || !v.isRecvSpine(loop.Over):
+					msg = "the loop does not range over the receiver's spine"
+				case len(loop.Iter) != 1 || len(loop.Iter[0].Conds()) != 0 || len(loop.Iter[0].Effects()) != 1:
+					msg = "loop body is not one unconditional assignment"
+				default:
+					s := loop.Iter[0].Effects()[0]
+					ix, ok := s.LHS.(TIndex)
+					e, okv := v.valueOf(s.RHS)
+					if s.Kind != "store" || !ok || !sameTerm(ix.X, p.Vals[0]) || loop.Key == nil || !isParamTerm(ix.I, loop.Key) || !okv || loop.Value == nil || !isParamTerm(e, loop.Value) {
+						msg = "loop body is not dict[key] = field.getVal()"
+					}
 				}
 			}
 		}
-		ob.Check(good, "appends getVal() of every element in index order", "Slice does not append getVal() of every element")
+		if msg == "" {
+			ob.Ok("fresh map; dict[key] = field.getVal() for every field under the same key (exactly what Get returns)")
+		} else {
+			ob.Fail("Dict is not a fresh map holding getVal() of every field under its key: %s", msg)
+		}
 	}
-	c.R.Floor("C13.R2", n, 4)
+	c.R.Floor("C13.R2", n, 3)
 }
 
 func c13Fresh(c *Ctx) {
